@@ -58,6 +58,17 @@ def rule_unwrap(ctx, rep):
                     pl = o2["rv"]["place"] if o2.get("kind") == "rvalue" and o2["rv"]["k"] in ("ref", "rawptr") else None
                     if pl and pl["p"] and isinstance(pl["p"][-1], dict) and pl["p"][-1].get("adt") == F.inner_path and F.data_field and pl["p"][-1].get("f") == F.data_field[0]:
                         moved = True
+                    if not moved:
+                        # ... or of the payload address however it is obtained (`ptr::read(this.as_ptr())`): the pointer's normal
+                        # form is "the data field of the block the parameter's stored pointer refers to"
+                        from .. import ptrclass as _pc, symx as _sx0
+
+                        n = _pc.Norm(F).norm(_sx0.expr(F, B0, o["term"]["args"][0]), {})
+                        x = n[1] if n[0] == "data" else None
+                        while x is not None and x[0] == "stored":
+                            x = x[1]
+                        if x == ("arg", 1):
+                            moved = True
             if not moved:
                 # through a checked helper's `Ok(value)` (`match take_if_unique(this.0) { Ok(data) => data, .. }`): on every
                 # returning path (path-sensitive summary of the inlined body) the result is the block's payload field
@@ -140,6 +151,9 @@ def run(ctx, rep):
             for b in F.method(h, name, tr):
                 yield b["key"]
 
+    from . import c05
+
+    c05.rule_free_type(ctx, rep)  # "the allocation is released": the sole owner gives the block back as the type (and layout) it was handed out as
     c03.rule_gate_for(ctx, rep, family)  # every way these functions come to hold a UniqueArc is behind the Acquire gate
     rep.floor("R-GATE", 2, "UniqueArc constructions / unchecked-constructor call sites in the unwrap family")
 
